@@ -2,6 +2,9 @@ package main
 
 import (
 	"bufio"
+	"context"
+	"fmt"
+	"io/fs"
 	"runtime/debug"
 	"syscall"
 	"encoding/json"
@@ -31,6 +34,8 @@ type sinkT struct {
 	failFn func(w int, attempt int) bool // fault injection: should this Write attempt fail?
 	failP  func(w int, p []byte) bool    // fault injection deciding on the payload as well
 	nWrite int
+	nFail   int  // failures injected so far (rotates the error value)
+	partial bool // failing writes report that half of the payload was written
 }
 
 var sink = &sinkT{}
@@ -53,6 +58,16 @@ func (s *sinkT) take() []wev {
 
 var errInjected = errors.New("injected write failure")
 
+// the error values a failing destination returns, in rotation: a plain error, the error a closed
+// file gives (identity os.ErrClosed inside a *fs.PathError), io.ErrShortWrite, a cancelled context
+var injectedErrors = []error{
+	errInjected,
+	&fs.PathError{Op: "write", Path: "/var/log/app.log", Err: os.ErrClosed},
+	io.ErrShortWrite,
+	context.Canceled,
+	fmt.Errorf("wrapped: %w", os.ErrClosed),
+}
+
 func (s *sinkT) write(w int, p []byte) (int, error) {
 	s.mu.Lock()
 	defer s.mu.Unlock()
@@ -60,7 +75,12 @@ func (s *sinkT) write(w int, p []byte) (int, error) {
 	fail := (s.failFn != nil && s.failFn(w, s.nWrite)) || (s.failP != nil && s.failP(w, p))
 	s.evs = append(s.evs, wev{W: w, K: "w", Fail: fail, payload: append([]byte(nil), p...)})
 	if fail {
-		return 0, errInjected
+		err := injectedErrors[s.nFail%len(injectedErrors)]
+		s.nFail++
+		if s.partial && len(p) > 3 {
+			return len(p) / 2, err // the destination took part of the record before it failed
+		}
+		return 0, err
 	}
 	return len(p), nil
 }
